@@ -93,6 +93,13 @@ pub enum Item {
     /// `Traceparent::current()` and `SpanCtxt::current(rt.ctxt())`
     Check,
     Yield,
+    /// panic right here (a quiet, planned unwind); it travels up through every enclosing scope to the
+    /// nearest `Catch` (or to the top of the hop / service / hand-off thread it happens on, which
+    /// catches it too and goes on)
+    Panic,
+    /// `catch_unwind` around `items` (in async code: around every poll of them); the thread is used on
+    /// afterwards and `Traceparent::current()` must be what it was before
+    Catch { items: Vec<Item> },
     /// push an incoming header around `items`
     Push { header: Header, via: PushVia, items: Vec<Item> },
     /// "next service": format the current traceparent (if valid), parse it on a fresh thread, push it there, run `items`
@@ -155,7 +162,10 @@ pub enum PItem {
     Event { id: usize },
     Check { id: usize },
     Yield,
-    Push { id: usize, header: Header, via: PushVia, items: Vec<PItem>, pre: usize, post: usize },
+    Panic,
+    Catch { items: Vec<PItem>, post: usize },
+    /// `in_async`: entered with `Frame::in_future` (async code) instead of `Frame::call`
+    Push { id: usize, header: Header, via: PushVia, in_async: bool, items: Vec<PItem>, pre: usize, post: usize },
     Service { id: usize, items: Vec<PItem>, pre: usize, end: usize, post: usize },
     Hop { id: usize, carry: Carry, fut: bool, items: Vec<PItem>, pre: usize, end: usize, post: usize },
     Join { carry: bool, migrate: bool, tasks: Vec<Vec<PItem>>, schedule: Vec<u8>, post: usize },
@@ -200,12 +210,18 @@ impl Numberer {
         self.checks - 1
     }
 
-    fn items(&mut self, items: &[Item]) -> Vec<PItem> {
-        items.iter().map(|it| self.item(it)).collect()
+    fn items(&mut self, items: &[Item], in_async: bool) -> Vec<PItem> {
+        items.iter().map(|it| self.item(it, in_async)).collect()
     }
 
-    fn item(&mut self, it: &Item) -> PItem {
+    fn item(&mut self, it: &Item, in_async: bool) -> PItem {
         match it {
+            Item::Panic => PItem::Panic,
+            Item::Catch { items } => {
+                let items = self.items(items, in_async);
+                let post = self.check();
+                PItem::Catch { items, post }
+            }
             Item::Event => {
                 self.events += 1;
                 PItem::Event { id: self.events - 1 }
@@ -215,7 +231,7 @@ impl Numberer {
             Item::Span(n) => {
                 let id = self.nodes;
                 self.nodes += 1;
-                let items = self.items(&n.items);
+                let items = self.items(&n.items, n.form.is_async());
                 let far_end = if n.form.is_sync_handoff() { Some(self.check()) } else { None };
                 let post = self.check();
                 PItem::Span(PNode { id, form: n.form, mdl: mdl_name(id), items, far_end, post })
@@ -224,15 +240,15 @@ impl Numberer {
                 let id = self.pushes;
                 self.pushes += 1;
                 let pre = self.check();
-                let items = self.items(items);
+                let items = self.items(items, in_async);
                 let post = self.check();
-                PItem::Push { id, header: header.clone(), via: *via, items, pre, post }
+                PItem::Push { id, header: header.clone(), via: *via, in_async, items, pre, post }
             }
             Item::Service { items } => {
                 let id = self.hops;
                 self.hops += 1;
                 let pre = self.check();
-                let items = self.items(items);
+                let items = self.items(items, false);
                 let end = self.check();
                 let post = self.check();
                 PItem::Service { id, items, pre, end, post }
@@ -241,13 +257,13 @@ impl Numberer {
                 let id = self.hops;
                 self.hops += 1;
                 let pre = self.check();
-                let items = self.items(items);
+                let items = self.items(items, *fut);
                 let end = self.check();
                 let post = self.check();
                 PItem::Hop { id, carry: *carry, fut: *fut, items, pre, end, post }
             }
             Item::Join { carry, migrate, tasks, schedule } => {
-                let tasks = tasks.iter().map(|t| self.items(t)).collect();
+                let tasks = tasks.iter().map(|t| self.items(t, true)).collect();
                 let post = self.check();
                 PItem::Join { carry: *carry, migrate: *carry && *migrate, tasks, schedule: schedule.clone(), post }
             }
@@ -257,7 +273,19 @@ impl Numberer {
 
 pub fn number(case: &Case) -> Prog {
     let mut n = Numberer::default();
-    let items = n.items(&case.items);
+    let items = n.items(&case.items, false);
     let final_check = n.check();
     Prog { items, nodes: n.nodes, events: n.events, checks: n.checks, pushes: n.pushes, hops: n.hops, final_check }
+}
+
+/// Does running these items end in an unwind that leaves the list (a `Panic` no `Catch` inside it stops)?
+/// Hop / service bodies and hand-off nodes stop it themselves; join tasks never contain an uncaught one
+/// (the generator's normaliser sees to that).
+pub fn unwinds(items: &[PItem]) -> bool {
+    items.iter().any(|it| match it {
+        PItem::Panic => true,
+        PItem::Span(n) => !n.form.is_handoff() && unwinds(&n.items),
+        PItem::Push { items, .. } => unwinds(items),
+        _ => false,
+    })
 }
